@@ -18,24 +18,14 @@ def gen_format(rng, num_is_int):
     precs = rng.choice(["", "", "", "." + str(rng.randint(0, 9)), ".", "." + str(rng.randint(10, 20))])
     post = "" if rng.random() < 0.85 else rng.choice(["|", "]", " units", " pct.", ";"])
     if r < 0.45:
-        lm, verb = rng.choice(["", "", "l", "ll"]), rng.choice("ddxXob")
-        if verb in "Xob":
-            lm = ""
-        if "#" in flags and post == "" and rng.random() < 0.5:
-            pass
+        lm, verb = rng.choice(["", "", "l", "ll"]), rng.choice("ddxXob")     # l/ll are dropped from the directive for every verb
     elif r < 0.85:
         lm, verb = rng.choice(["", "", "l"]), rng.choice("ffeeE")
-        if verb == "E":
-            lm = ""
         flags = flags.replace("#", "")
     elif r < 0.93:
         lm, verb = "", "s"
     else:
-        lm, verb = "", rng.choice("FcitugG")       # no formatter of their own: the string formatter renders %!verb(string=...)
-        if verb in "gG":
-            post = post or "|"                     # %g itself is outside the model; with trailing text it is a bad verb for a string
-    if verb in "xX":
-        post = ""                                  # %x of a string argument (hex of the text) is outside the model
+        lm, verb = "", rng.choice("Fcitu")         # no formatter of their own: the string formatter renders %!verb(string=...)
     return pre + "%" + flags + width + precs + lm + verb + post
 
 
@@ -49,6 +39,12 @@ def classify(n, f, obs):
             else "fmtnum-trailing-text" if mm and mm.group(2)
             else "fmtnum-x-negative-not-twos-complement" if mm and mm.group(1) in "xXob" and n.startswith("-")
             else "fmtnum-verb-unsupported" if mm and mm.group(1) in "obXEG" and "%!" in obs else "fmtnum-printf")
+
+
+# the witnesses of the repaired findings (regression probes: model case + C printf oracle on every run)
+REGRESSION = [("17", "old:%d"), ("17", "%5d|"), ("-1", "%x"), ("-5", "%08llx"), ("-1", "%-10x|"), ("0", "le %16lf"), ("3", "angle=%d"), ("1.5", "self %lf"),
+              ("-1", "%b"), ("-255", "%o"), ("-255", "%X"), ("17", "lld %lld ld"), ("2.5", "[%08.3lf] le"), ("-2.625", "%5d|"), ("-2.625", "<%x>"), ("7", "%lle|"),
+              ("-9223372036854775808", "%x"), ("-9223372036854775808", "%d;")]
 
 
 def run_part(ctx, case, bad, mlr_rows, P, ref_fmtnum):
@@ -67,9 +63,10 @@ def run_part(ctx, case, bad, mlr_rows, P, ref_fmtnum):
             f = gen_format(rng, isint)
             if "\\" in f or "\t" in f:
                 continue
-            if not isint and re.search(r"[dxXob]$", re.sub(r"l", "", f)) and abs(float(txt)) >= 2 ** 63:
+            if not isint and re.search(r"%[-+ 0#]*\d*(?:\.\d*)?l*[dxXob]", f) and abs(float(txt)) >= 2 ** 63:
                 continue                              # int(float) outside int64: platform-defined, outside the model
             rows.append((b"r", txt.encode(), f.encode()))
+    rows += [(b"r", n.encode(), f.encode()) for n, f in REGRESSION]
     res = mlr_rows(ctx, ["id", "n", "f"], rows, P(["fmtnum($n,$f)", "fmtifnum($n,$f)", "hexfmt($n)"]), ["o", "oi", "hx"])
     for (_, n, f), o in zip(rows, res):
         n, f = n.decode(), f.decode()
